@@ -222,6 +222,48 @@ def write_data(wd, guard, edges, derive_feature, feats):
         f.write("=============================================================================\n")
 
 
+# ------------------------------------------------------------------------------------------------ probes
+PROBE_PRELUDE = ('pub static K: i32 = 5;\npub trait Tr { type Assoc; }\n'
+                 'pub fn report(k: &str, rows: &[::std::string::String]) { println!("OBS {{\\"k\\": {:?}, \\"rows\\": [{}]}}", k, '
+                 'rows.iter().map(|r| format!("{:?}", r)).collect::<::std::vec::Vec<_>>().join(", ")); }\n')
+
+
+# generic types deriving ONE derive whose expansion names traits of another feature (the operator of the fold): the
+# other impl is written by hand, so the derive's feature really is alone
+EXTRA_PROBES = [
+    ("generic_alone:Sum", "#[derive(derive_more::Sum)] pub struct G<T>(pub T);\n"
+     "impl<T: ::core::ops::Add<Output = T>> ::core::ops::Add for G<T> { type Output = Self; fn add(self, r: Self) -> Self { G(self.0 + r.0) } }",
+     ['::std::format!("{}", ::std::vec![m::G(1i32), m::G(2)].into_iter().sum::<m::G<i32>>().0)']),
+    ("generic_alone:Product", "#[derive(derive_more::Product)] pub struct G<T>(pub T);\n"
+     "impl<T: ::core::ops::Mul<Output = T>> ::core::ops::Mul for G<T> { type Output = Self; fn mul(self, r: Self) -> Self { G(self.0 * r.0) } }",
+     ['::std::format!("{}", ::std::vec![m::G(3i32), m::G(2)].into_iter().product::<m::G<i32>>().0)']),
+]
+
+
+def probe_groups(derive_feature):
+    """the code-path table of C15 and the generic declarations of C01, grouped by the exact set of features their
+    derives need: group -> [(key, module)]"""
+    from props.c15_cases import CASES
+    from props.c01 import GENERIC_ITEMS
+    feat_of = {k.split(":", 1)[1]: v for k, v in derive_feature.items()}
+    groups = {}
+    inner = "#![allow(dead_code, non_camel_case_types)]\nuse ::derive_more;\n"
+    for key, decl, obs in list(CASES) + EXTRA_PROBES:
+        fs = frozenset(feat_of[d] for d in set(re.findall(r"derive_more::(\w+)", decl)) if d in feat_of)
+        if not fs:
+            continue
+        rows = ", ".join(o.replace("M::", "m::") for o in obs)
+        mod = (f"use super::*;\npub mod m {{\n{inner}{decl}\n}}\npub fn run() {{ let rows: ::std::vec::Vec<::std::string::String> = "
+               f"vec![{rows}]; report({json.dumps(key)}, &rows); }}")
+        groups.setdefault(fs, []).append((key, mod))
+    for n, (fam, decl) in enumerate(GENERIC_ITEMS):
+        fs = frozenset(feat_of[d] for d in set(re.findall(r"derive_more::(\w+)", decl)) if d in feat_of)
+        key = f"generic:{fam}:{n}"
+        mod = f"use super::*;\npub mod m {{\n{inner}{decl}\n}}\npub fn run() {{ report({json.dumps(key)}, &[]); }}"
+        groups.setdefault(fs, []).append((key, mod))
+    return groups
+
+
 # ------------------------------------------------------------------------------------------------ builds
 def cargo(cmd, target, timeout=1800):
     env = vlib.cargo_env({"CARGO_TARGET_DIR": target, "RUSTFLAGS": ""})
@@ -268,6 +310,46 @@ def run(chk, tier, seed, replay):
     if replay:
         want = json.load(open(replay))["case"]
         configs = [c for c in configs if list(c[0]) == want.get("features") and c[1] == want.get("std") and c[2] == want.get("step")]
+    # ---------------- probes: every code path / generic declaration under exactly the features its derives need
+    groups = probe_groups(derive_feature)
+    pconfigs = [(fs, std) for fs in sorted(groups, key=sorted) for std in (False, True)]
+    if replay:
+        want = json.load(open(replay))["case"]
+        pconfigs = [c for c in pconfigs if sorted(c[0]) == want.get("features") and c[1] == want.get("std") and want.get("step") == "probe"]
+    psh = 4
+
+    def probe_work(i):
+        out = []
+        for fs, std in pconfigs[i::psh]:
+            feats_ = tuple(sorted(fs)) + (("std",) if std else ())
+            obs, failed, br = vlib.run_case_crate(f"c20_probe_{i}", groups[fs], prelude=PROBE_PRELUDE, features=feats_,
+                                                  default_features=False, target_dir=os.path.join(vlib.BUILD, f"target-c20p-{i}"))
+            out.append((fs, std, obs, failed))
+        return out
+    # the reference: the same modules under `full`
+    allmods = [m for fs in sorted(groups, key=sorted) for m in groups[fs]]
+    with cf.ThreadPoolExecutor(max_workers=psh + 1) as ex:
+        ref_f = ex.submit(vlib.run_case_crate, "c20_probe_full", allmods, prelude=PROBE_PRELUDE, features=("full",),
+                          target_dir=os.path.join(vlib.BUILD, "target-c20p-full")) if not replay or pconfigs else None
+        presults = [x for part in ex.map(probe_work, range(psh)) for x in part]
+        ref_obs, ref_failed, _ = ref_f.result() if ref_f else ({}, {}, None)
+    for fs, std, obs, failed in presults:
+        for key, _ in groups[fs]:
+            chk.cov["evaluations"] += 1
+            chk.cov["distinct_nontrivial"] += 1
+            name = f"probe:{'+'.join(sorted(fs))}:{'std' if std else 'no_std'}:{key}"
+            case = {"features": sorted(fs), "std": std, "step": "probe", "key": key}
+            if key in ref_failed:
+                continue        # not a supported input even under `full` (C01's subject)
+            if key in failed:
+                chk.deviation(name, f"`{key}` compiles under `full` but not with features {sorted(fs)} "
+                              f"{'+ std' if std else 'alone (no std)'}: {failed[key][0]['message'][:200]}", case=case,
+                              expected="compiles as under full", observed=failed[key][:3], tags={"kind": "probe_compile", "features": sorted(fs)})
+            elif (obs.get(key) or {}).get("rows") != (ref_obs.get(key) or {}).get("rows"):
+                chk.deviation(name, f"`{key}` behaves differently with features {sorted(fs)} than under `full`", case=case,
+                              expected=ref_obs.get(key), observed=obs.get(key), tags={"kind": "probe_behaviour", "features": sorted(fs)})
+        chk.cov["traces_validated_against_impl"] += len(groups[fs])
+    chk.notes["probe_feature_sets"] = len(groups)
     nsh = 4
     shards = [configs[i::nsh] for i in range(nsh)]
 
@@ -310,4 +392,6 @@ def run(chk, tier, seed, replay):
     chk.sample({"edge": sorted(edges)[len(edges) // 2], "guards": {k: sorted(map(sorted, guard[k])) for k in sorted(edges)[len(edges) // 2]}})
     chk.sample({"build": {"features": results[0][0], "std": results[0][1], "step": results[0][2], "outcome": results[0][3]}})
     chk.cov["rule"] = ("extracted gating graph: every edge over all feature sets + all single features and pairs state-wise (TLC); real "
-                       "builds: 24 features x {no std, std} test + impl check (quick), + 276 pairs x {no std, std} check (thorough)")
+                       "builds: 24 features x {no std, std} test + impl check (quick), + 276 pairs x {no std, std} check (thorough); "
+                       "probes: every code path of the C15 table and every generic declaration of C01 under exactly the features its "
+                       "derives need x {no std, std}, compared with the same module under `full`")
